@@ -289,6 +289,18 @@ impl Default for InjectorPP {
     }
 }
 
+impl Drop for InjectorPP {
+    fn drop(&mut self) {
+        // Undo the patches newest first. When the same function was faked more than once,
+        // the bytes saved by the first installation (the real original code) must be the
+        // ones written last; dropping the Vec front to back would leave the first patch,
+        // which jumps into an already freed trampoline, in place.
+        while let Some(guard) = self.guards.pop() {
+            drop(guard);
+        }
+    }
+}
+
 /// A guard that prevents injectorpp affecting the test while alive.
 ///
 /// When this guard is held, no any injectorpp instance can be created.
